@@ -53,6 +53,11 @@ pub fn case_data(va: &dyn VariantApi, data: &[u8], st: &CaseStats) -> Result<(),
         compare_result(&format!("{} hash_buf_for", v.name), &r, &m0)?;
         st.eval();
     }
+    // a generator obtained through Default behaves as one obtained through new()
+    let mut gd = va.generator_default();
+    gd.update(data);
+    compare_result(&format!("{} Generator::default() + finalize()", v.name), &gd.finalize_default(), &m0)?;
+    st.eval();
     st.class(match &m0 {
         Ok(_) => "default:ok",
         Err(vmodel::GenError::TooSmall) => "default:too_small",
@@ -74,6 +79,16 @@ pub fn case_data(va: &dyn VariantApi, data: &[u8], st: &CaseStats) -> Result<(),
     Ok(())
 }
 
+/// `tlsh::hash_buf` (the default type) on the same data.
+fn case_hash_buf_normal(api: &dyn GlobalApi, data: &[u8], st: &CaseStats) -> Result<(), String> {
+    if let Some(r) = api.hash_buf_normal(data) {
+        let m = vmodel::hash(vmodel::NORMAL, data, Opts::from_index(Opts::DEFAULT_INDEX));
+        st.eval();
+        compare_result("tlsh::hash_buf", &r, &m)?;
+    }
+    Ok(())
+}
+
 fn run_data(ctx: &Ctx) -> CheckResult {
     let cases = ctx.tier.pick(4000u32, 40000);
     let max = ctx.tier.pick(20_000usize, 70_000);
@@ -89,6 +104,9 @@ fn run_data(ctx: &Ctx) -> CheckResult {
             |d: &DataSpec, st: &CaseStats| {
                 let data = d.render();
                 st.sample(|| json!({"check": "data", "variant": v.name, "len": data.len(), "data": d.to_json()}));
+                if v.name == "Normal" {
+                    case_hash_buf_normal(ctx.api, &data, st)?;
+                }
                 case_data(va, &data, st)
             },
         )?;
@@ -333,7 +351,11 @@ pub fn replay(ctx: &Ctx, check: &str, case: &Value) -> Result<(), String> {
     match check {
         "data" => {
             let d = DataSpec::from_json(case.get("data").ok_or("no data")?).ok_or("bad data")?;
-            case_data(va()?, &d.render(), &st)
+            let va = va()?;
+            if va.v().name == "Normal" {
+                case_hash_buf_normal(ctx.api, &d.render(), &st)?;
+            }
+            case_data(va, &d.render(), &st)
         }
         "state" => {
             let gs: GenState = serde_json::from_value(case.get("state").cloned().ok_or("no state")?).map_err(|e| e.to_string())?;
